@@ -87,7 +87,7 @@ impl Doc {
                 }
             }
             if self.cram {
-                d.push_str(&format!("Test {i}\n  $ {cmd}\n"));
+                d.push_str(&format!("Test {}:{i}\n  $ {cmd}\n", self.id()));
                 for e in exps {
                     d.push_str(&format!("  {e}\n"));
                 }
@@ -97,7 +97,7 @@ impl Doc {
                 d.push('\n');
             } else {
                 let cfg = if cfg.is_empty() { String::new() } else { format!(" {{{cfg}}}") };
-                d.push_str(&format!("# Test {i}\n\n```scrut{cfg}\n$ {cmd}\n"));
+                d.push_str(&format!("# Test {}:{i}\n\n```scrut{cfg}\n$ {cmd}\n", self.id()));
                 for e in exps {
                     d.push_str(&format!("{e}\n"));
                 }
@@ -109,6 +109,27 @@ impl Doc {
         }
         d
     }
+}
+
+/// like `reference_doc`, with the title of the test case each result belongs to
+pub fn reference_doc_titled(doc: &Doc, seq: &[(String, usize, B, i32)]) -> (Vec<(String, &'static str)>, Vec<String>) {
+    let (kinds, log) = reference_doc(doc, seq);
+    let title = |k: usize| format!("Test {}:{}", seq[k].0, seq[k].1);
+    let mut out = vec![];
+    if kinds.len() == seq.len() && kinds.iter().all(|k| *k == "skipped") {
+        for k in 0..seq.len() {
+            out.push((title(k), "skipped"));
+        }
+        return (out, log);
+    }
+    if kinds == vec!["<error>"] {
+        return (vec![(String::new(), "<error>")], log);
+    }
+    // otherwise results are produced in sequence order, one per entry until a timeout, then skipped for the rest
+    for (k, kind) in kinds.iter().enumerate() {
+        out.push((title(k), *kind));
+    }
+    (out, log)
 }
 
 /// reference for one document execution: (result kinds in report order, log lines in order)
@@ -463,6 +484,18 @@ fn kinds_match(got: &[&str], want: &[&str]) -> bool {
     rec(got, want)
 }
 
+/// the same on (title, kind) pairs: every result must belong to the test case the reference says
+fn results_match(got: &[(String, String)], want: &[(String, &str)]) -> bool {
+    fn rec(g: &[(String, String)], w: &[(String, &str)]) -> bool {
+        match w.first() {
+            None => g.is_empty(),
+            Some((t, "detached?")) => rec(g, &w[1..]) || (g.first().map(|x| x.0 == *t && x.1 == "success").unwrap_or(false) && rec(&g[1..], &w[1..])),
+            Some((t, k)) => g.first().map(|x| x.0 == *t && x.1 == *k).unwrap_or(false) && rec(&g[1..], &w[1..]),
+        }
+    }
+    rec(got, want)
+}
+
 /// order of the log with the entries of detached test cases (which log asynchronously) taken out, and those entries as a sorted list
 fn split_log(log: &[String], detached: &[String]) -> (Vec<String>, Vec<String>) {
     let mut d: Vec<String> = log.iter().filter(|l| detached.contains(l)).cloned().collect();
@@ -536,6 +569,7 @@ fn check_order(case: &CliCase, docs: &[Doc], aux: &[Doc], cli_prepend: &[String]
     let find = |name: &str| -> Option<&Doc> { aux.iter().find(|d| d.name == name.trim_start_matches("../")) };
     // expected per main document
     let mut want_kinds: Vec<&'static str> = vec![];
+    let mut want_titled: Vec<(String, &'static str)> = vec![];
     let mut want_log: Vec<String> = vec![];
     let mut per_doc_log: Vec<Vec<String>> = vec![];
     for d in docs {
@@ -552,6 +586,7 @@ fn check_order(case: &CliCase, docs: &[Doc], aux: &[Doc], cli_prepend: &[String]
             }
         }
         let (k, l) = reference_doc(d, &seq);
+        want_titled.extend(reference_doc_titled(d, &seq).0);
         want_kinds.extend(k);
         want_log.extend(l.clone());
         per_doc_log.push(l);
@@ -628,10 +663,10 @@ fn check_order(case: &CliCase, docs: &[Doc], aux: &[Doc], cli_prepend: &[String]
                 }
                 matched && g2.len() <= optional && g2.iter().all(|x| *x == "success")
             } else {
-                kinds_match(&got, &sorted_want)
+                kinds_match(&got, &sorted_want) && run.json_results().map(|r| results_match(&r, &want_titled)).unwrap_or(false)
             };
             if !ok {
-                res.findings.push(Finding::new("C20", "one-result-per-test-case", format!("{}: {sorted_want:?}", describe()), format!("{got:?}")));
+                res.findings.push(Finding::new("C20", "one-result-per-test-case", format!("{}: {want_titled:?}", describe()), format!("{:?}", run.json_results())));
             }
         }
         Err(e) => res.findings.push(Finding::new("C20", "report-produced", describe(), format!("{e}; status {:?}; stderr {}", run.status, run.stderr_str().lines().last().unwrap_or("")))),
